@@ -78,6 +78,11 @@ def main(prop, prop_v, tier, seed, replay, scenarios, own_prefixes, known_prefix
                 res.violation(p, "correspondence harness did not run to completion", no_input=True)
                 continue
             st, diffs, mons, hi, err = S.compare(text, mexe)
+            if job[1] and job[1].startswith("tamperfull") and diffs:
+                # monitors-only probe: the pinned x/mod reader accepts a tile the model's verifying
+                # reader refuses (known finding C12); only the fork monitors are meaningful here
+                stats_total["probe:tamperfull-model-differs"] = stats_total.get("probe:tamperfull-model-differs", 0) + len(diffs)
+                diffs = []
             for k, v in st.items():
                 stats_total[k] = stats_total.get(k, 0) + v
             if diffs is None:
